@@ -142,7 +142,7 @@ def positions_ab(evo, pkg_a, pkg_b):
 def run_shard(tier, seed, idx, n, res, tmp):
     from stone.backends.python_rsrc import stone_serializers as ss, stone_validators as bv
     b_ = budget(tier)
-    for ci in range(idx, b_['pairs'], n):
+    for ci in common.case_range(idx, b_['pairs'], n, res):
         cs = common.case_seed(PROPERTY, seed, ci)
         rnd = random.Random(cs)
         a = gm.generate(cs, rtwork.rt_profile(p_subtypes=0.35, p_union=0.4))
